@@ -88,7 +88,8 @@ def run_cases(ctx, res, cases, inputs, stats, rng):
             res.nontrivial.add(common.canon_key([p, i]))
         rname = real.split(":")[0]
         # anything that is not a documented rejection / a TypeError for a foreign keyword / a result is internal
-        if rname not in DOCUMENTED + ("ok", "TypeError"):
+        # (a TypeError is clean only when it is Python's own "unexpected keyword argument")
+        if rname not in DOCUMENTED + ("ok", "TypeError") or real == "TypeError:?":
             kind = classify_internal(rname, detail.get("msg", ""), detail.get("where", "?"))
             res.violations.append(Violation(kind, f"date(method={mname}, {vc.jsonable_kw(kw)}) raised {rname}: "
                                                   f"{detail.get('msg', '')[:100]} at {detail.get('where')}", replay))
@@ -201,6 +202,7 @@ def run(ctx):
     rng = ctx.rng(1)
     stats = dict(model_outcomes={}, guarded=0, unvalidated={}, internal={}, oracle={}, oracle_outcomes={},
                  singles=0, pairs=0, deeper=0)
+    vc.reset_cycle()
     inputs = vc.make_inputs(rng)
     stats["input_variants"] = len(inputs)
     cases = []
@@ -212,8 +214,14 @@ def run(ctx):
             stats["singles"] += 1
         pairs = [(a, b) for a, b in itertools.combinations(devs, 2) if a[0] != b[0]]
         if ctx.tier == "quick" and ctx.boost == 1:
-            idx = rng.permutation(len(pairs))[: ctx.n(170, 0)]
-            pairs = [pairs[k] for k in idx]
+            # every pair of two *rejecting* deviations (these pin down the order of the guards), a sample of the rest
+            def rejecting(d):
+                return d[1] in ("bad", "dictBad", "dictKeys") or d[0] in ("rec", "rp", "method") or \
+                    (d[0] in ("nomut", "unary", "contemp")) or (d == ("rate", "absent")) or (d[0] == "pop")
+            hard = [pr for pr in pairs if rejecting(pr[0]) and rejecting(pr[1])]
+            rest = [pr for pr in pairs if not (rejecting(pr[0]) and rejecting(pr[1]))]
+            idx = rng.permutation(len(rest))[: ctx.n(60, 0)]
+            pairs = hard + [rest[k] for k in idx]
         for a, b in pairs:
             cases.append((method, [a, b]))
             stats["pairs"] += 1
@@ -293,4 +301,4 @@ def replay(ctx, payload):
         out = common.lean_driver("Validate", vc.encode("r", d["params"], d["input"]))
         print("model         :", out[0] if out else "?")
     name = real.split(":")[0]
-    return name in DOCUMENTED + ("ok", "TypeError")
+    return name in DOCUMENTED + ("ok",) or (name == "TypeError" and real != "TypeError:?")
